@@ -1169,6 +1169,11 @@ fn domain_lists() -> Vec<String> {
     for l in ["www.a.com", "~www.a.com", "a.com|~www.a.com", "www.a.com|b.com", "~www.a.com|~b.com", "sub.a.com|www.a.com"] {
         out.push(l.to_string());
     }
+    // one domain listed both ways (exclusions win: such a rule applies nowhere, or only where the other
+    // included entries say)
+    for l in ["a.com|~a.com", "~a.com|a.com", "a.com|b.com|~b.com|~a.com", "a.com|b.com|~a.com", "sub.a.com|~sub.a.com|a.com"] {
+        out.push(l.to_string());
+    }
     // entries in another spelling than the one a request reports: IDN labels in Unicode, upper case
     for l in ["bücher.de", "~bücher.de", "bücher.de|b.com", "xn--bcher-kva.de", "BÜCHER.de", "a.com|~x.bücher.de", "A.com", "~A.com|b.com", "Sub.A.Com|~a.com"] {
         out.push(l.to_string());
